@@ -428,7 +428,26 @@ def r18_8(ctx: Ctx) -> None:
                   construct="worker without the queue")
 
 
+def r18_9(ctx: Ctx) -> None:
+    """the public entry points hand their callback on: extract() and extractall() call _extract with `callback=callback` (a dropped keyword
+    leaves the caller's callback without a single event, and nothing else notices)."""
+    n = 0
+    for name in ("extract", "extractall"):
+        f = shared.szf(ctx, name)
+        if "callback" not in f.params:
+            continue
+        for c in [c for c in q.calls(f) if attr_tail(c) == "_extract"]:
+            n += 1
+            tgt = shared.szf(ctx, "_extract")
+            pos = tgt.params.index("callback") - 1 if "callback" in tgt.params else -1
+            val = next((k.value for k in c.keywords if k.arg == "callback"), c.args[pos] if 0 <= pos < len(c.args) else None)
+            ctx.check(val is not None and norm(val) == "callback", "R18.9", f, c, f"{name} forwards its callback",
+                      f"{name}() does not pass its `callback` on to _extract: the caller's callback never receives an event", construct=f"{name} drops the callback")
+    ctx.floor("R18.9", n, 2, "_extract calls in extract/extractall")
+
+
 def run(ctx: Ctx) -> None:
+    r18_9(ctx)
     r18_8(ctx)
     r18_7(ctx)
     r18_6(ctx)
